@@ -545,6 +545,11 @@ class Method(Function):
 		if via._by('function_def_raw.name').tokens == '__init__':
 			return False
 
+		# XXX メソッドはクラス直下の関数のみ。クラス外の関数は第1引数が`self`でもメソッドではない
+		elems = via._full_path.de_identify().elements
+		if len(elems) < 3 or elems[-3] != 'class_def_raw':
+			return False
+
 		# @see Function.parameters
 		if not via._exists('function_def_raw.parameters'):
 			return False
